@@ -1095,5 +1095,6 @@ def r810(rep: Report, ctx: Ctx) -> None:
     well-formed traces after it from being sequenced."""
     rep.rule("R8.10", "every well-formed trace of the stream is sequenced: "
              "a trace that cannot be materialised is skipped on its own", 1)
-    from .c12 import per_trace_skip
+    from .c12 import per_trace_fresh, per_trace_skip
     per_trace_skip(rep, ctx, "R8.10")
+    per_trace_fresh(rep, ctx, "R8.10")
